@@ -105,7 +105,6 @@ fn name_harness<const N: usize, const K: usize>() {
     let mut i = 1;
     while i < out.len() {
         assert!(is_regular(out[i]), "name token contains a delimiter or white-space byte");
-        assert!(out[i] >= 33 && out[i] <= 126, "name token contains a byte outside 33..=126 (7.3.5 recommends #xx)");
         i += 1;
     }
     // (2) an ISO reader recovers exactly the original bytes and consumes the whole token
@@ -113,7 +112,7 @@ fn name_harness<const N: usize, const K: usize>() {
     let used = ref_read_name::<N>(out, &mut dec);
     assert!(used == Some(out.len()), "ISO name reader does not consume the written token");
     assert!(same_bytes(dec.as_slice(), &name[..]), "ISO name reader decodes a different name");
-    kani::cover!(sink.n == 1 + 3 * N);
+    kani::cover!(sink.n > 1 + N);
     kani::cover!(sink.n == 1 + N);
     std::mem::forget(r);
 }
@@ -765,22 +764,36 @@ fn c03_indirect_object_scalar() {
 }
 
 // ---- stream body framing under a chunking sink (C19 / C03) ----------------------------------------
-/// `write_stream` to a sink that accepts at most 4 bytes per call (never fails): the bytes
-/// delivered are exactly "<<>>stream\n" + content + "\nendstream", i.e. the stream body is written
-/// with write_all semantics (nothing lost on a short write) and exactly Length bytes lie between
-/// the `stream` EOL and `endstream`.
+/// `write_stream` to a sink that accepts at most 4 bytes per call (never fails): the dictionary,
+/// the keyword `stream` followed by LF or CRLF (7.3.8.1), then EXACTLY the content bytes, then an
+/// optional end-of-line and `endstream` - nothing lost or duplicated under short writes.
 #[kani::proof]
 #[kani::unwind(5)]
 fn c19_write_stream_chunked() {
     let content: [u8; 5] = kani::any();
-    let mut s = FaultSink::<40> { got: [0; 40], n: 0, budget: 1000, chunk: 4, kind: 0, interrupted_left: 0, interrupt_at: 0 };
+    let mut s = FaultSink::<48> { got: [0; 48], n: 0, budget: 1000, chunk: 4, kind: 0, interrupted_left: 0, interrupt_at: 0 };
     let stream = Stream { dict: Dictionary::new(), content: content.to_vec(), allows_compression: true, start_position: None };
     let r = Writer::write_stream(&mut s, &stream);
     assert!(r.is_ok());
-    assert!(s.n == 11 + 5 + 10, "stream framing has the wrong length (bytes lost or duplicated under short writes)");
-    assert!(s.got[0] == b'<' && s.got[3] == b'>' && s.got[4] == b's' && s.got[10] == b'\n', "stream header bytes differ");
-    assert!(s.got[11] == content[0] && s.got[12] == content[1] && s.got[13] == content[2] && s.got[14] == content[3] && s.got[15] == content[4], "stream body bytes differ under chunked writes");
-    assert!(s.got[16] == b'\n' && s.got[17] == b'e' && s.got[25] == b'm', "stream trailer bytes differ");
+    let o = &s.got;
+    assert!(o[0] == b'<' && o[1] == b'<' && o[2] == b'>' && o[3] == b'>', "stream dictionary");
+    assert!(o[4] == b's' && o[5] == b't' && o[6] == b'r' && o[7] == b'e' && o[8] == b'a' && o[9] == b'm', "'stream' keyword");
+    let body = if o[10] == b'\n' {
+        11
+    } else {
+        assert!(o[10] == b'\r' && o[11] == b'\n', "'stream' must be followed by LF or CRLF");
+        12
+    };
+    assert!(o[body] == content[0] && o[body + 1] == content[1] && o[body + 2] == content[2] && o[body + 3] == content[3] && o[body + 4] == content[4], "stream body bytes differ under chunked writes");
+    let mut p = body + 5;
+    if o[p] == b'\r' {
+        p += 1;
+    }
+    if o[p] == b'\n' {
+        p += 1;
+    }
+    assert!(o[p] == b'e' && o[p + 1] == b'n' && o[p + 2] == b'd' && o[p + 3] == b's' && o[p + 8] == b'm', "'endstream' must follow the body (bytes lost or duplicated under short writes)");
+    assert!(s.n == p + 9, "trailing bytes after 'endstream'");
     kani::cover!(true);
     std::mem::forget(r);
     std::mem::forget(stream);
@@ -864,8 +877,16 @@ fn c03_binary_mark() {
         assert!(r.is_ok());
         let o = sink.out();
         assert!(o.len() == 6 && o[0] == b'%' && o[1] == mark[0] && o[4] == mark[3] && o[5] == b'\n', "binary comment line malformed");
-    } else {
-        assert!(r.is_err() && sink.n == 0, "a mark with a byte < 128 must be rejected without output");
+    } else if r.is_ok() {
+        // (lopdf rejects such a mark; if a future version writes a line anyway it must still be a
+        // comment line of bytes >= 128, 7.5.2)
+        let o = sink.out();
+        assert!(o.len() >= 2 && o[0] == b'%' && o[o.len() - 1] == b'\n');
+        let mut i = 1;
+        while i + 1 < o.len() {
+            assert!(o[i] >= 128, "binary comment must consist of bytes >= 128");
+            i += 1;
+        }
     }
     kani::cover!(all_high);
     kani::cover!(!all_high);
@@ -897,10 +918,19 @@ fn c03_xref_section_header() {
     let f = read_uint(o, &mut pos);
     assert!(f == Some(first as u32), "subsection header does not start with the first object number");
     assert!(pos < o.len() && o[pos] == b' ');
-    pos += 1;
+    while pos < o.len() && o[pos] == b' ' {
+        pos += 1;
+    }
     let c = read_uint(o, &mut pos);
     assert!(c == Some(2), "subsection header does not give the number of entries");
-    assert!(pos < o.len() && o[pos] == b'\n');
+    // end-of-line marker: CR, LF or CRLF, optionally preceded by a space
+    if pos < o.len() && o[pos] == b' ' {
+        pos += 1;
+    }
+    assert!(pos < o.len() && (o[pos] == b'\n' || o[pos] == b'\r'), "subsection header must end with an end-of-line marker");
+    if o[pos] == b'\r' && pos + 1 < o.len() && o[pos + 1] == b'\n' {
+        pos += 1;
+    }
     pos += 1;
     assert!(o.len() == pos + 40, "subsection must consist of the header line and count 20-byte entries");
     assert!(o[pos + 17] == b'n' && o[pos + 37] == b'f');
@@ -968,15 +998,9 @@ fn array_name_then(second: Object, expect: &[u8]) {
     assert!(r.is_ok());
     let o = sink.out();
     assert!(o.len() >= 6 && o[0] == b'[' && o[1] == b'/' && o[2] == n, "name element");
-    assert!(is_ws(o[3]), "a name followed by a keyword/number must be separated from it by white space");
-    let e = regular_run_end(o, 4);
+    let p = skip_ws(o, 3).expect("a name followed by a keyword/number must be separated from it by white space");
+    let e = expect_token(o, p, expect);
     assert!(e == o.len() - 1 && o[e] == b']');
-    assert!(e - 4 == expect.len());
-    let mut i = 0;
-    while i < expect.len() {
-        assert!(o[4 + i] == expect[i], "second element spelled wrongly");
-        i += 1;
-    }
     kani::cover!(n == b'A');
     std::mem::forget(r);
     std::mem::forget(arr);
@@ -997,22 +1021,63 @@ fn c01_array_name_then_int() {
     array_name_then(Object::Integer(7), b"7");
 }
 
-/// Keyword/number pairs: `[true 5]`, `[null null]`, `[3 0 R 5]` keep their tokens apart.
+/// Skips a (non-empty) run of white space; returns None if there is none.
+fn skip_ws(s: &[u8], mut pos: usize) -> Option<usize> {
+    let start = pos;
+    while pos < s.len() && is_ws(s[pos]) {
+        pos += 1;
+    }
+    if pos == start {
+        None
+    } else {
+        Some(pos)
+    }
+}
+/// Expects the regular-character token `tok` at `pos`, followed by a non-regular byte.
+fn expect_token(s: &[u8], pos: usize, tok: &[u8]) -> usize {
+    let e = regular_run_end(s, pos);
+    assert!(e - pos == tok.len(), "token merged with its neighbour or misspelled");
+    let mut i = 0;
+    while i < tok.len() {
+        assert!(s[pos + i] == tok[i], "token misspelled");
+        i += 1;
+    }
+    e
+}
+/// Keyword/number pairs: `[true N]`, `[null null]`, `[3 0 R N]` keep their tokens apart (any amount
+/// of white space between tokens is accepted; merged tokens are not).
 #[kani::proof]
 #[kani::unwind(8)]
 fn c01_array_scalar_pairs() {
     let i: u8 = kani::any();
     kani::assume(i <= 9);
-    let mut s1 = ArrSink::<16>::new();
-    let mut s2 = ArrSink::<16>::new();
-    let mut s3 = ArrSink::<16>::new();
+    let d = [b'0' + i];
+    let mut s1 = ArrSink::<24>::new();
+    let mut s2 = ArrSink::<24>::new();
+    let mut s3 = ArrSink::<24>::new();
     assert!(Writer::write_array(&mut s1, &[Object::Boolean(true), Object::Integer(i as i64)]).is_ok());
     assert!(Writer::write_array(&mut s2, &[Object::Null, Object::Null]).is_ok());
     assert!(Writer::write_array(&mut s3, &[Object::Reference((3, 0)), Object::Integer(i as i64)]).is_ok());
-    let d = b'0' + i;
-    assert!(s1.n == 8 && s1.b[5] == b' ' && s1.b[6] == d && s1.b[0] == b'[' && s1.b[1] == b't' && s1.b[7] == b']', "[true N]");
-    assert!(s2.n == 11 && s2.b[5] == b' ' && s2.b[1] == b'n' && s2.b[6] == b'n' && s2.b[10] == b']', "[null null]");
-    assert!(s3.n == 9 && s3.b[1] == b'3' && s3.b[2] == b' ' && s3.b[3] == b'0' && s3.b[4] == b' ' && s3.b[5] == b'R' && s3.b[6] == b' ' && s3.b[7] == d && s3.b[8] == b']', "[3 0 R N]");
+    let o = s1.out();
+    assert!(o[0] == b'[');
+    let p = expect_token(o, 1, b"true");
+    let p = skip_ws(o, p).expect("white space required between 'true' and a number");
+    let p = expect_token(o, p, &d);
+    assert!(o[p] == b']' && p + 1 == o.len());
+    let o = s2.out();
+    let p = expect_token(o, 1, b"null");
+    let p = skip_ws(o, p).expect("white space required between two keywords");
+    let p = expect_token(o, p, b"null");
+    assert!(o[p] == b']' && p + 1 == o.len());
+    let o = s3.out();
+    let p = expect_token(o, 1, b"3");
+    let p = skip_ws(o, p).expect("white space inside a reference");
+    let p = expect_token(o, p, b"0");
+    let p = skip_ws(o, p).expect("white space inside a reference");
+    let p = expect_token(o, p, b"R");
+    let p = skip_ws(o, p).expect("white space required between a reference and a number");
+    let p = expect_token(o, p, &d);
+    assert!(o[p] == b']' && p + 1 == o.len());
     kani::cover!(i == 9);
 }
 
@@ -1038,10 +1103,10 @@ fn c01_keywords_and_reference() {
     let o = s3.out();
     let mut pos = 0;
     assert!(read_uint(o, &mut pos) == Some(id as u32), "reference object number");
-    assert!(pos < o.len() && o[pos] == b' ');
-    pos += 1;
+    pos = skip_ws(o, pos).expect("white space inside a reference");
     assert!(read_uint(o, &mut pos) == Some(g as u32), "reference generation");
-    assert!(pos + 2 == o.len() && o[pos] == b' ' && o[pos + 1] == b'R', "reference keyword");
+    pos = skip_ws(o, pos).expect("white space inside a reference");
+    assert!(pos + 1 == o.len() && o[pos] == b'R', "reference keyword");
     kani::cover!(id > 9999 && g > 99);
 }
 
@@ -1062,6 +1127,8 @@ fn c01_array_string_pairs() {
     let p = if is_ws(o1[4]) { 5 } else { 4 };
     assert!(o1[p] == b'5' && o1[p + 1] == b']' && o1.len() == p + 2, "number after a string");
     let o2 = s2.out();
-    assert!(o2.len() == 8 && o2[0] == b'[' && o2[1] == b'<' && o2[4] == b'>' && o2[5] == b'/' && o2[6] == b'N' && o2[7] == b']', "name after a hex string");
+    assert!(o2.len() >= 8 && o2[0] == b'[' && o2[1] == b'<' && o2[4] == b'>', "hex string element");
+    let q = if is_ws(o2[5]) { 6 } else { 5 };
+    assert!(o2[q] == b'/' && o2[q + 1] == b'N' && o2[q + 2] == b']' && o2.len() == q + 3, "name after a hex string");
     kani::cover!(c == b'A');
 }
